@@ -53,7 +53,7 @@ def is_marker(x, name):
     while isinstance(x, tuple) and x:
         if x[0] in ("ref", "deref"):
             x = x[1]
-        elif x[0] in ("call", "pure") and short(x[1]) in ("take", "clone", "as_ref", "as_mut", "replace", "as_deref") and not x[1].endswith("}") and x[2]:
+        elif x[0] in ("call", "pure") and short(x[1]) in ("take", "clone", "cloned", "copied", "as_ref", "as_mut", "replace", "as_deref") and not x[1].endswith("}") and x[2]:
             x = x[2][0]
         elif x[0] == "havoc":
             x = x[3]
